@@ -33,8 +33,8 @@ I({"resp": 2, "sym": 1, "sympos": 1, "perm": 1, "hdrconc": 1}, {"rt": NAMES, "co
 # C2: limits inside the wrappers: the 255-record limit of A answers (encoded length 765..768 <-> payload 470..478 with
 # Base32, 566..572 with Base64u), the 253-byte TXT string boundary with an arbitrary byte (Raw: every byte value,
 # including the backslash TXT packing treats specially) on either side of it
-I({"resp": 2, "sym": 1, "sympos": 1, "perm": 0, "hdrconc": 1, "domain": 0, "rt": 7, "codec": 0}, {"plen": list(range(470, 479))}, unwind=20000)
-I({"resp": 2, "sym": 1, "sympos": 1, "perm": 0, "hdrconc": 1, "domain": 0, "rt": 7, "codec": 2}, {"plen": list(range(566, 573))}, unwind=20000, tiers=("thorough",))
+I({"resp": 2, "sym": 2, "sympos": 1, "perm": 0, "hdrconc": 1, "domain": 0, "rt": 7, "codec": 0}, {"plen": list(range(470, 479))}, unwind=20000)
+I({"resp": 2, "sym": 2, "sympos": 1, "perm": 0, "hdrconc": 1, "domain": 0, "rt": 7, "codec": 2}, {"plen": list(range(566, 573))}, unwind=20000, tiers=("thorough",))
 I({"resp": 2, "sym": 1, "sympos": 2, "perm": 0, "hdrconc": 1, "domain": 0, "rt": 2, "codec": 7, "plen": 300}, {"symat": [244, 245, 246, 247, 248]})
 I({"resp": 2, "sym": 2, "sympos": 2, "perm": 0, "hdrconc": 1, "domain": 0, "rt": 2, "codec": 7, "plen": 300}, {"symat": [245, 246]})
 I({"resp": 2, "sym": 1, "sympos": 2, "perm": 0, "hdrconc": 1, "domain": 0, "rt": 2, "codec": 7, "plen": 600}, {"symat": [497, 498, 499, 500, 501]}, tiers=("thorough",))
